@@ -82,13 +82,13 @@ def gen_case(rng, kind, subtype):
             if cur == 0:
                 continue
             ix = [int(v) for v in rng.integers(-cur, cur, int(rng.integers(0, 6)))]
-            d.update(ix=ix, how=int(rng.integers(2)))
+            d.update(ix=ix, how=int(rng.integers(4)))
             cur = len(ix)
         elif op == "take":
             if cur == 0:
                 continue
             ix = [int(v) for v in rng.integers(-cur, cur, int(rng.integers(0, 7)))]
-            d.update(ix=ix)
+            d.update(ix=ix, how=int(rng.integers(4)))
             cur = len(ix)
         elif op == "takefill":
             if cur == 0:
@@ -153,12 +153,26 @@ def apply_op(arr, model, d, kind, subtype, ctx):
         mk = d["mask"]
         key = [np.array(mk, dtype=bool), list(mk), pd.array(mk, dtype="boolean")][d["how"]]
         return arr[key], [m for m, k in zip(model, mk) if k]
-    if op == "intidx":
+    if op in ("intidx", "take"):
         ix = d["ix"]
-        key = np.array(ix, dtype=np.int64) if d["how"] == 0 else list(ix)
-        return arr[key], [model[i] for i in ix]
-    if op == "take":
-        return arr.take(d["ix"]), [model[i] for i in d["ix"]]
+        how = d.get("how", 1)
+        # the indexer as a list, an int64 array, a narrow signed array, an unsigned array
+        if how == 0 or (how == 2 and len(ix) == 0):
+            key = np.array(ix, dtype=np.int64)
+        elif how == 2:
+            key = np.array(ix, dtype=np.int8 if max(abs(i) for i in ix) < 127 else np.int16)
+        elif how == 3 and len(ix):
+            key = np.array([i % n for i in ix], dtype=np.uint8 if n < 256 else np.uint16)
+        else:
+            key = list(ix)
+        before = key.copy() if isinstance(key, np.ndarray) else None
+        res = arr[key] if op == "intidx" else arr.take(key)
+        if before is not None:
+            ctx.count("indexer_untouched_checks")
+            if key.dtype != before.dtype or key.tolist() != before.tolist():
+                ctx.violation("indexer-mutated", f"{op}:callers-index-array-written:{kind}", {"n": n},
+                              expected=before.tolist(), observed=key.tolist())
+        return res, [model[i] for i in ix]
     if op == "takefill":
         return arr.take(d["ix"], allow_fill=True), [None if i < 0 else model[i] for i in d["ix"]]
     if op == "concat":
@@ -211,7 +225,8 @@ def apply_op(arr, model, d, kind, subtype, ctx):
     raise ValueError(op)
 
 
-ERRORS = ["int-oob", "int-oob-neg", "take-oob", "take-oob-neg", "takefill-lt-minus1",
+ERRORS = ["int-oob", "int-oob-neg", "take-oob", "take-oob-neg", "intlist-oob", "intlist-oob-neg",
+          "intarr-oob-neg-far", "takefill-lt-minus1",
           "mask-wrong-length", "mask-na", "intidx-na", "float-index", "take-from-empty"]
 # (a string key is deliberately not in the table: the repository's own conformance suite
 #  marks "passing an invalid index type" as unsupported, so nothing is promised for it)
@@ -233,6 +248,15 @@ def check_error(ctx, arr, n, which, kind):
         elif which == "take-oob-neg":
             exp = IndexError
             arr.take([-n - 1])
+        elif which == "intlist-oob":
+            exp = IndexError
+            arr[[0, n] if n else [0]]
+        elif which == "intlist-oob-neg":
+            exp = IndexError
+            arr[[-n - 1]]
+        elif which == "intarr-oob-neg-far":
+            exp = IndexError
+            arr[np.array([-1, -2 * n - (0 if n else 1)] if n else [-1], dtype=np.int64)]
         elif which == "takefill-lt-minus1":
             exp = ValueError
             if n == 0:
@@ -342,6 +366,23 @@ def check_case(ctx, case):
                               expected=model, observed=it, case=case)
         # --- errors pandas expects ---------------------------------------------------------------
         check_error(ctx, arr, len(model), ERRORS[int(rng.integers(len(ERRORS)))], kind)
+        # --- a narrow integer indexer on an array longer than the indexer's dtype can count -------------
+        if model and step == 0 and rng.random() < 0.5:
+            reps = 300 // len(model) + 1
+            ok, big, tb_ = ctx.guarded(lambda: gg.array_class(kind)._concat_same_type([arr] * reps))
+            if ok:
+                bm = model * reps
+                for dt_ in (np.int8, np.uint8):
+                    ix_ = [1 % len(bm), len(model) - 1, 0] + ([-1, -2] if dt_ is np.int8 else [])
+                    for via in ("take", "getitem"):
+                        key_ = np.array(ix_, dtype=dt_)
+                        ok, r_, tb_ = ctx.guarded(lambda: big.take(key_) if via == "take" else big[key_])
+                        ctx.count("element_checks")
+                        if not ok:
+                            rec_raise(f"narrow-indexer:{via}:{np.dtype(dt_).name}", r_, tb_, hist)
+                        elif not all(gg.same_value(a_, b_) for a_, b_ in zip(gg.pylist(r_), [bm[i] for i in ix_])):
+                            ctx.violation("elements", f"narrow-indexer:{via}:{kind}", {"history": hist, "ix": ix_},
+                                          expected=[bm[i] for i in ix_], observed=gg.pylist(r_), case=case)
         # --- quantities against a fresh array --------------------------------------------------------
         ok, fresh, tb_ = ctx.guarded(gg.make_array, kind, model, subtype)
         if not ok:
